@@ -112,6 +112,46 @@ def corpus():
     add("array_insert", ["b0=" + arr_n(5), "b1=[i1]"], ["ai0,1,70"])
     add("array_shrink", ["b0=" + arr_n(5)], ["as0,0"])
     add("array_shrink", ["b0=" + arr_n(40)], ["as0,3"])
+    # ---- containers whose capacity is what an EARLIER operation left: exactly the length after a parse
+    #      (the tokener shrinks on ']') or json_object_array_shrink(a, 0), length + n after shrink(a, n),
+    #      doubled after a growth; then every modifying operation at the boundary positions
+    #      (first, last, one past the last, far beyond) through each route: array_*_idx, add,
+    #      json_pointer_set, json_patch in place
+    def jarr(n, val=b"%d"):
+        return b"[" + b",".join((val % i) if b"%" in val else val for i in range(n)) + b"] "
+    for n in (1, 3, 32, 33):
+        sources = [("shrunk", ["b0=" + arr_n(n, val="s%02x"), "as0,0"]),
+                   ("parsed", [tp(0, 0, 32, jarr(n, val=b'"e%d"'))])]
+        if n in (3, 32):
+            sources.append(("shrunk+2", ["b0=" + arr_n(n), "as0,2"]))
+            sources.append(("grown", ["b0=" + arr_n(n), "as0,0", "b2=i7", "aa0,2"]))
+        for tag, src in sources:
+            ln = n + 1 if tag == "grown" else n
+            child = ["b1={61=[i1]}"]
+            for idx in sorted(set([0, ln - 1, ln, ln + 1, ln + 40])):
+                add("history_array_put", src + child, ["ap0,1,%d" % idx])
+            add("history_array_insert", src + child, ["ai0,1,%d" % (ln - 1)])
+            add("history_array_insert", src + child, ["ai0,1,0"])
+            add("history_array_add", src + child, ["aa0,1"])
+            add("history_pointer_set", src + child, ["ps0,1,%s" % hx(b"/%d" % (ln - 1))])
+            add("history_pointer_set", src + child, ["ps0,1,%s" % hx(b"/-")])
+            pat = "[{6f70=s7265706c616365,70617468=s%s,76616c7565=[i1,s78]}]" % hx(b"/%d" % (ln - 1))   # replace the last
+            add("history_patch_inplace", src + ["b1=" + pat], ["pi0,1"])
+            pat = "[{6f70=s616464,70617468=s%s,76616c7565=i5},{6f70=s72656d6f7665,70617468=s2f30}]" % hx(b"/-")     # add /-, remove /0
+            add("history_patch_inplace", src + ["b1=" + pat], ["pi0,1"])
+    # nested: the array inside a parsed document, reached by pointer / patch
+    doc = b'{"a":[10,20,[1,2,3]],"b":{"c":["x","y"]}} '
+    for path in (b"/a/2/2", b"/a/2/0", b"/a/2", b"/b/c/1", b"/b/c/-", b"/a/-"):
+        add("history_pointer_set", [tp(0, 0, 32, doc), "b1=s6e6577"], ["ps0,1,%s" % hx(path)])
+        pat = "[{6f70=s7265706c616365,70617468=s%s,76616c7565={6b=n}}]" % hx(path.replace(b"/-", b"/0"))
+        add("history_patch_inplace", [tp(0, 0, 32, doc), "b1=" + pat], ["pi0,1"])
+    # objects and strings that come out of the parser / of a deep copy, then the setters
+    objtxt = b"{" + b",".join(b'"k%d":%d' % (i, i) for i in range(11)) + b"} "
+    add("history_object_add", [tp(0, 0, 32, objtxt), "b1=i7"], ["oa0,1,%s" % hx(b"new")])
+    add("history_object_add", [tp(0, 0, 32, objtxt), "b1=i7"], ["oa0,1,%s" % hx(b"k10")])
+    add("history_object_add", ["b2=" + obj_n(11), "dc0,2", "b1=i7"], ["oa0,1,%s" % hx(b"new")])
+    add("history_array_put", ["b2=" + arr_n(32), "dc0,2", "b1=i7"], ["ap0,1,31"])
+    add("history_set_string", [tp(0, 0, 32, b'"' + LONG[:40] + b'" ')], ["ss0,%s" % hx(LONG[:41]), "ss0,%s" % hx(LONG[:3])])
     # ---- strings across the inline threshold and in separate storage
     add("set_string", ["b0=s616263"], ["ss0,%s" % hx(b"abcd")])
     add("set_string", ["b0=s616263"], ["ss0,%s" % hx(b"x" * 9), "ss0,%s" % hx(b"y" * 30), "ss0,%s" % hx(b"z" * 10), "sl0,%s,0" % hx(b""), "sl0,%s,60" % hx(LONG[:60])])
@@ -263,6 +303,38 @@ def gen_random(rng, n, doubles=0):
             kind, setup, test = "r_set_string", ["b0=s" + hx(bytes(rng.randrange(1, 256) for _ in range(l0)))], steps
             if rng.random() < 0.6:
                 setup, test = setup + steps[:-1], steps[-1:]
+        elif r < 0.97:
+            # a container left by a random fault-free history, then one operation at a boundary position
+            n_ = rng.choice([1, 2, 3, 5, 16, 31, 32, 33, 64])
+            if rng.random() < 0.5:
+                setup = [tp(0, 0, 32, b"[" + b",".join(rng.choice([b"%d", b'"s%d"', b"[%d]", b"null"]) .replace(b"%d", b"%d" % i) for i in range(n_)) + b"] ")]
+            else:
+                setup = ["b0=" + arr_n(n_, val=rng.choice(["i%d", "s%02x", "[i%d]"]))]
+            ln = n_
+            for step in range(rng.randint(0, 3)):
+                c = rng.random()
+                if c < 0.5:
+                    setup.append("as0,%d" % rng.choice([0, 0, 0, 1, 2, 7]))
+                elif c < 0.8:
+                    setup += ["b%d=i%d" % (3 + step, step), "aa0,%d" % (3 + step)]
+                    ln += 1
+                else:
+                    setup += ["b%d=n" % (3 + step), "ap0,%d,%d" % (3 + step, ln + 2)]
+                    ln += 3
+            idx = rng.choice([0, ln - 1, ln - 1, ln, ln + 1, ln + 33, max(0, ln // 2)])
+            route = rng.random()
+            if route < 0.4:
+                test = ["ap0,1,%d" % idx]
+            elif route < 0.55:
+                test = ["ai0,1,%d" % idx]
+            elif route < 0.65:
+                test = ["aa0,1"]
+            elif route < 0.85:
+                test = ["ps0,1,%s" % hx(b"/%d" % idx if rng.random() < 0.8 else b"/-")]
+            else:
+                setup.append("b2=[{6f70=s%s,70617468=s%s,76616c7565=[i1]}]" % (hx(rng.choice([b"replace", b"add", b"add"])), hx(b"/%d" % min(idx, ln))))
+                test = ["pi0,2"]
+            kind, setup = "r_history", setup + ["b1=" + rng.choice(["i1", "[i1,s62]", "{61=n}"])]
         else:
             key = bytes(rng.choice(b"abc~/01") for _ in range(rng.randint(1, 4))).replace(b"~", b"~0").replace(b"/", b"~1")
             kind, setup, test = "r_pointer_set", ["b0={61=" + tree + "}", "b1=i9"], ["ps0,1,%s" % hx(rng.choice([b"/", b"/a/", b"/a/-", b"/a/0", b"/b/"]) + key)]
